@@ -221,6 +221,7 @@ type Op struct {
 	Ev      EvType
 	Sub     int  // sub-selector (misuse kind, write path, shrink variant ...)
 	BatchCb bool // pass a callback to batch ops that take func(Entity)
+	Leak    *Op  // KOpenQuery executed inside the first batch-creation callback; the query stays open
 }
 
 func (o *Op) String() string {
@@ -239,6 +240,9 @@ func (o *Op) String() string {
 	}
 	if o.K == KEmit {
 		s += " ev=" + o.Ev.String()
+	}
+	if o.Leak != nil {
+		s += " leak={" + o.Leak.String() + "}"
 	}
 	return s
 }
